@@ -67,8 +67,9 @@ class Canon:
         return [x["name"] for x in a["variants"][variant]["fields"]]
 
     def adt_name(self, adt):
-        a = self.f.adts.get(adt)
-        return a["name"] if a else adt
+        # the def key (crate-qualified definition path) is the same in every configuration; the
+        # compiler's "visible path" (std::result::Result vs core::result::Result) is not
+        return adt
 
     def variant_name(self, adt, variant):
         a = self.f.adts.get(adt)
